@@ -88,8 +88,9 @@ VARIANTS = [
      "old": "            if max_len is not None and max_len < len(entries):\n"
             "                raise ValueError(f\"{len(entries)} is wider than {max_len}\")\n", "new": "            pass\n"},
     {"name": "R2 Collection fixed length test deleted", "file": SER, "expect": "C08.R2",
-     "old": "        elif self._length:\n            if len(entries) != self._length:\n"
-            "                raise ValueError(f\"Need exactly {self._length} entries, got {len(entries)}\")\n", "new": ""},
+     "old": "            if len(entries) != self._length:\n"
+            "                raise ValueError(f\"Need exactly {self._length} entries, got {len(entries)}\")\n",
+     "new": "            pass\n"},
     {"name": "R2 BytesFixed size test deleted", "file": SER, "expect": "C08.R2",
      "old": "        if len(instance) != self._size:\n            raise ValueError(f\"length of {instance!r} is not {self._size}\")\n",
      "new": ""},
@@ -248,21 +249,6 @@ VARIANTS = [
      "old": "            raise ValueError(f\"length of {instance!r} is not {self._size}\")\n        writer.write_bytes(instance)\n",
      "new": "            raise ValueError(f\"length of {instance!r} is not {self._size}\")\n"
             "        writer.write_bytes(instance[:self._size])\n"},
-    {"name": "P R2 Collection count checks in a helper with guard clauses", "file": SER, "expect": "silent",
-     "edits": [
-         {"file": SER, "old": "    def serialize(self, entries, writer: BufferWriter, ctx):\n        if self._len_spec:\n"
-          "            max_len = getattr(self._len_spec, 'max_val', None)\n",
-          "new": "    def _refuse_bad_count(self, items):\n        if self._len_spec:\n"
-                 "            max_len = getattr(self._len_spec, 'max_val', None)\n"},
-         {"file": SER, "old": "            if max_len is not None and max_len < len(entries):\n"
-          "                raise ValueError(f\"{len(entries)} is wider than {max_len}\")\n        elif self._length:\n"
-          "            if len(entries) != self._length:\n"
-          "                raise ValueError(f\"Need exactly {self._length} entries, got {len(entries)}\")\n",
-          "new": "            if max_len is not None and max_len < len(items):\n"
-                 "                raise ValueError(f\"{len(items)} is wider than {max_len}\")\n            return\n"
-                 "        if self._length and len(items) != self._length:\n"
-                 "            raise ValueError(f\"Need exactly {self._length} entries, got {len(items)}\")\n\n"
-                 "    def serialize(self, entries, writer: BufferWriter, ctx):\n        self._refuse_bad_count(entries)\n"}]},
     # ------------------------------------------------------------------ R8
     {"name": "R8 ByteArray.deserialize caps the length it just read", "file": SER, "expect": "C08.R8",
      "old": "        bytes_len = reader.read(self._len_spec, ctx=ctx)\n",
@@ -572,6 +558,71 @@ VARIANTS = [
      "expect": "C08.R15",
      "old": "        if self._null_term and val.endswith(b\"\\x00\"):\n            val = val[:-1]\n        return val.decode(\"utf8\")\n",
      "new": "        return bytes(val).strip(b\"\\x00\").decode(\"utf8\")\n"},
+    # ------------------------------------------------------------------ second audit round (anchored on the repaired text)
+    {"name": "R21 Collection picks the fixed-length mode by the truth of _length again (D151)", "file": SER, "expect": "C08.R21",
+     "old": "        elif self._length is not None:\n            if len(entries) != self._length:",
+     "new": "        elif self._length:\n            if len(entries) != self._length:"},
+    {"name": "R21 Collection.deserialize falls into the greedy branch for a length of 0 again (D151)", "file": SER,
+     "expect": "C08.R21",
+     "old": "        if self._len_spec or self._length is not None:\n", "new": "        if self._len_spec or self._length:\n"},
+    {"name": "P R21 Collection.deserialize mode test with the operands the other way round", "file": SER, "expect": "silent",
+     "old": "        if self._len_spec or self._length is not None:\n",
+     "new": "        if self._length is not None or self._len_spec is not None:\n"},
+    {"name": "R2 NumPyArray.encode casts without looking at what was lost again (D152)", "file": SER, "expect": "C08.R2",
+     "old": "        src = np.asarray(val)\n        val: np.ndarray = src.astype(self.dtype).flatten()\n"
+            "        # Casting to an integer dtype wraps / truncates whatever doesn't fit, refuse instead\n"
+            "        if np.issubdtype(self.dtype, np.integer) and not np.array_equal(val, src.flatten()):\n"
+            "            raise ValueError(f\"{src!r} can't be represented as {self.dtype}\")\n",
+     "new": "        val: np.ndarray = np.array(val, dtype=self.dtype).flatten()\n"},
+    {"name": "P R2 NumPyArray.encode check hoisted into locals, operands swapped", "file": SER, "expect": "silent",
+     "old": "        if np.issubdtype(self.dtype, np.integer) and not np.array_equal(val, src.flatten()):\n",
+     "new": "        integral = np.issubdtype(self.dtype, np.integer)\n        lossless = np.array_equal(src.flatten(), val)\n"
+            "        if integral and not lossless:\n"},
+    {"name": "R22 ParseContext._root starts walking at the parent again (D153)", "file": SER, "expect": "C08.R22",
+     "old": "        # The outermost context is its own root\n        obj = self\n", "new": "        obj = self._\n"},
+    {"name": "P R22 ParseContext._root as an explicit walk with a local for the parent", "file": SER, "expect": "silent",
+     "old": "        # The outermost context is its own root\n        obj = self\n        while obj._ is not None:\n            obj = obj._\n        return obj\n",
+     "new": "        obj = self\n        while True:\n            above = obj._\n            if above is None:\n                return obj\n            obj = above\n"},
+    # re-anchored copies of earlier Collection variants (text after the `_length is not None` repair)
+    {"name": "P R2 Collection count checks in a helper with guard clauses (repaired text)", "file": SER, "expect": "silent",
+     "edits": [
+         {"file": SER, "old": "    def serialize(self, entries, writer: BufferWriter, ctx):\n        if self._len_spec:\n"
+          "            max_len = getattr(self._len_spec, 'max_val', None)\n",
+          "new": "    def _refuse_bad_count(self, items):\n        if self._len_spec:\n"
+                 "            max_len = getattr(self._len_spec, 'max_val', None)\n"},
+         {"file": SER, "old": "            if max_len is not None and max_len < len(entries):\n"
+          "                raise ValueError(f\"{len(entries)} is wider than {max_len}\")\n        elif self._length is not None:\n"
+          "            if len(entries) != self._length:\n"
+          "                raise ValueError(f\"Need exactly {self._length} entries, got {len(entries)}\")\n",
+          "new": "            if max_len is not None and max_len < len(items):\n"
+                 "                raise ValueError(f\"{len(items)} is wider than {max_len}\")\n            return\n"
+                 "        if self._length is not None and len(items) != self._length:\n"
+                 "            raise ValueError(f\"Need exactly {self._length} entries, got {len(items)}\")\n\n"
+                 "    def serialize(self, entries, writer: BufferWriter, ctx):\n        self._refuse_bad_count(entries)\n"}]},
+    {"name": "R9 Collection reader treats a fixed length of one as greedy (repaired text)", "file": SER, "expect": "C08.R9",
+     "old": "        if self._len_spec or self._length is not None:\n            if self._len_spec:\n                size = reader.read(",
+     "new": "        if self._len_spec or (self._length is not None and self._length > 1):\n            if self._len_spec:\n"
+            "                size = reader.read("},
+    {"name": "P R1/R2/R9 Collection folds its two length attributes into a mode string (repaired text)", "file": SER,
+     "expect": "silent",
+     "edits": [
+         {"file": SER, "old": "        elif isinstance(length, int):\n            self._length = length\n\n"
+          "    def serialize(self, entries, writer: BufferWriter, ctx):\n        if self._len_spec:\n",
+          "new": "        elif isinstance(length, int):\n            self._length = length\n"
+                 "        if self._len_spec:\n            self._mode = \"prefixed\"\n        elif self._length is not None:\n"
+                 "            self._mode = \"counted\"\n        else:\n            self._mode = \"greedy\"\n\n"
+                 "    def serialize(self, entries, writer: BufferWriter, ctx):\n        if self._mode == \"prefixed\":\n"},
+         {"file": SER, "old": "                raise ValueError(f\"{len(entries)} is wider than {max_len}\")\n        elif self._length is not None:\n",
+          "new": "                raise ValueError(f\"{len(entries)} is wider than {max_len}\")\n        elif self._mode == \"counted\":\n"},
+         {"file": SER, "old": "        if self._len_spec or self._length is not None:\n            if self._len_spec:\n                size = reader.read(",
+          "new": "        if self._mode != \"greedy\":\n            if self._mode == \"prefixed\":\n                size = reader.read("}]},
+    {"name": "P R15 StrFixed pads and strips with a module-level NUL constant", "file": SER, "expect": "silent",
+     "edits": [
+         {"file": SER, "old": "class StrFixed(SerializableBase):\n", "new": "_PAD_BYTE = b\"\\x00\"\n\n\nclass StrFixed(SerializableBase):\n"},
+         {"file": SER, "old": "        instance += b\"\\x00\" * (self._length - len(instance))\n",
+          "new": "        instance += _PAD_BYTE * (self._length - len(instance))\n"},
+         {"file": SER, "old": "        return reader.read(self._bytes_tmpl, ctx=ctx).rstrip(b\"\\x00\").decode(\"utf8\")\n",
+          "new": "        return reader.read(self._bytes_tmpl, ctx=ctx).rstrip(_PAD_BYTE).decode(\"utf8\")\n"}]},
     # ------------------------------------------------------------------ documented limits (value level)
     {"name": "X OptionalPrefixed reader's presence test flipped (conditions are not compared)", "file": SER, "expect": "miss",
      "old": "        present = reader.read(U8, ctx=ctx)\n        if present:\n", "new":
